@@ -192,7 +192,7 @@ N('nb_eip712_type_graphs_vs_reference', TD, 'TypedData (encode_type, struct_hash
   'native: 4368 member lists (1..=3 members over 16 kinds incl. struct refs, nested/fixed arrays, recursive P[]) x 5 helper-struct graphs (independent, chains, shared/repeated deps, mutual recursion) = 21840 documents with conforming values')
 N('nb_eip712_nonconforming_values_refused', TD, 'TypedData value conformance', {'C09': Q, 'C08': Q},
   'a document is refused exactly when the reference says a value is not a value of its declared type; accepted documents hash to the reference value',
-  'native: all 32 widths x 8 range boundaries x uintN/intN x number/decimal/hex/float spellings; bytesN N-1,N,N+1 for N=1..32; fixed arrays size-1,size,size+1 (size 0..3, also nested); 12 JSON kinds x 12 type kinds; missing/undeclared members; each offending value also nested inside a struct inside an array (3535 documents)')
+  'native: all 32 widths x 8 range boundaries x uintN/intN x number/decimal/hex/float spellings; bytesN N-1,N,N+1 for N=1..32; fixed arrays size-1,size,size+1 (size 0..3, also nested); 16 JSON kinds x 12 type kinds; missing/undeclared members; each offending value also nested inside a struct inside an array (3535 documents)')
 N('nb_domain_types_enumerated', TD, 'TypedDataBlob::verify_domain_type / compute', {'C20': Q},
   'exactly the 31 well-formed EIP712Domain types are accepted (and hash to the reference value); every other sequence, any type substitution, and a missing domain type are refused',
   'native: all 9331 member sequences of length 0..=5 over the five standard names + one foreign name; 14 type substitutions at every position of each of the 31 well-formed domains; missing EIP712Domain (10452 documents)')
@@ -269,13 +269,16 @@ N('nb_hex_roundtrip_and_layouts', CMD, 'cmd::permissive_hex o hex::encode', {'C1
   'native: one byte string of every length 0..=4096 (all 256 byte values) and all 65536 two-byte strings', bin=True)
 N('nb_cli_account_commands', CLI, 'address / export / public-key commands', {'C16': Q},
   'address, export, public-key print the EIP-55 address, 0x-hex secret and uncompressed public key of the key the library derives for the selector; flags == environment; the two selectors conflict',
-  'native CLI: 2 mnemonics x 3 passphrases x 8 selectors x 3 commands x {flags, environment}')
+  'native CLI: 2 mnemonics x 3 passphrases x 8 selectors x 3 commands x {flags, environment}; ganache account indices 0..=40 and 486 x 3 commands')
 N('nb_cli_sign_hash_pairing', CLI, 'sign / hash commands', {'C16': Q, 'C15': Q, 'C11': Q},
   'every sign subcommand signs (low-s, recoverable to the selected key) exactly the digest the matching hash subcommand prints; hash --signature == keccak(sign output), with and without 0x; legacy without chain id refused in both output modes unless the override flag is given (then v in {27,28}); hash data / --message-hash',
   'native CLI: 3 account selectors x (3 messages, 3 transactions, typed data, raw) + guard cases')
 N('nb_cli_malformed_inputs_are_ordinary_errors', CLI, 'every CLI parser', {'C17': Q, 'C09': Q, 'C13': Q, 'C14': Q, 'C15': Q},
   'malformed input to every parser named in C17 yields a non-zero, non-panic exit with a message and no output; 64 array suffixes are accepted',
-  'native CLI: about 230 listed malformed inputs (word counts, indices, paths, signatures, digests, transaction / typed-data JSON, hex, vanity prefixes, lengths)')
+  'native CLI: about 250 listed malformed inputs (word counts, indices, paths, signatures, digests, transaction / typed-data JSON, hex, vanity prefixes, lengths, unreadable input files for every file-reading command)')
+N('nb_cli_hex_commands', CLI, 'hex encode / hex decode commands', {'C19': Q, 'C17': Q},
+  'through the real binary: encode prints 0x + two lower-case digits per byte, decode(encode(b)) == b byte for byte (stdin and file input), all whitespace / case / prefix / multi-line layouts decode to the same bytes, malformed input (also on a later line) yields a non-zero exit and no output at all',
+  'native CLI: 8 byte strings (empty, NUL, all 256 values, 5000 bytes) x stdin/file; 8 layouts; 9 malformed inputs')
 N('nb_cli_vanity_search', CLI, 'new --vanity-prefix', {'C18': Q, 'C12': Q},
   'the printed phrase is a valid mnemonic of the requested length whose selected account address starts with the requested digits (case-insensitive), for every thread count',
   'native CLI: 27 prefixes (all single digits both cases, four 2-digit, one 3-digit) x thread counts 0,1,2,16 x rotating vanity options, 2 repetitions for 1-digit prefixes')
@@ -377,7 +380,7 @@ PROPS = {
     'C07': dict(level='proof',
                 technique='Verus proof of extracted rlp::{len,bytes,uint,list} against the Yellow-Paper spec + Kani/CBMC pairings on the real functions',
                 claim='rlp::{len,bytes,uint,list} produce exactly the Yellow-Paper encoding for inputs of every length and value (Verus, unbounded); the canonical-form clauses (minimal length prefix, no wrapped single byte < 0x80, no leading zero in integers, 0 = empty string) are part of that spec; len and uint are additionally proved on the real code for all 2^64 x 2 resp. 2^256 inputs by Kani. rlp::iter and AccessList::rlp_encode are bounded stand-ins.',
-                note='Assumed: ethnum U256 / usize leading_zeros and to_be_bytes interface contracts (each cross-checked on the real code by a complete Kani harness in the same run), vstd Vec/slice model, total list payload fits usize, extractor rewrite rules R1-R4/R6. Decoder side: a spec-level strict decoder for string items and integers is defined in the Verus unit and lemmas prove dec_str(enc_str(b) ++ rest) == (b, rest), dec_uint(be_min(v)) == v, injectivity of enc_str, and that minimal big-endian bytes have no leading zero (machine-checked, pure mathematics over the spec); the same for nested lists (induction on nesting) is NOT machine-checked and is exercised only by the native strict decoder.',
+                note='Assumed: ethnum U256 / usize leading_zeros and to_be_bytes interface contracts (each cross-checked on the real code by a complete Kani harness in the same run), vstd Vec/slice model, total list payload fits usize, extractor rewrite rules R1-R4/R6. Decoder side: a spec-level strict decoder for string items and integers is defined in the Verus unit and lemmas prove dec_str(enc_str(b) ++ rest) == (b, rest), dec_uint(be_min(v)) == v, injectivity of enc_str, and that minimal big-endian bytes have no leading zero (machine-checked, pure mathematics over the spec); a theorem for FLAT lists (items are strings: every legacy transaction, the key list of an access-list entry) shows that a strict decoder accepts what rlp::list returns, consumes it completely and returns exactly the original byte strings; the same for NESTED lists (induction on nesting: typed transactions with non-empty access lists) is NOT machine-checked and is exercised only by the native strict decoder.',
                 explanation='Verus proves rlp::{len,bytes,uint,list} (bodies extracted from /repo each run) equal to the Yellow-Paper encoding for inputs of every length; strict-decoder lemmas are spec-level; Kani pairs give counterexamples and cross-check the assumed usize/U256 interface contracts.',
                 trusted=['U256/usize interface contracts assumed in the Verus prelude (cross-checked by xc_* Kani harnesses on the real code)',
                          'sum of item lengths fits usize (true of live allocations)']),
